@@ -300,6 +300,7 @@ void World::do_op(const J &op)
 			// the id one step BEFORE the target's first query (ids advance by 7727): a value the client never sent
 			uint16_t id = (uint16_t)(first_id[to] - 7727); payload[0] = id >> 8; payload[1] = id & 255; S.count("op.dgram.aim_before_first");
 		}
+		if (op.gets("aim") == "zero_id" && payload.size() >= 2) { payload[0] = 0; payload[1] = 0; S.count("op.dgram.aim_zero_id"); }
 		S.inject(src, h->id, dst, payload);
 		S.count("op.dgram");
 	}
